@@ -61,6 +61,10 @@ def run(res):
     for lbl, raw in base:
         for _ in range(2 if res.tier == "quick" else 3):
             cases.append(("mut", RC.mutate(r, raw)))
+    # bytes after the final 0x80 that are not zero: outside the CRC-protected region, must be refused
+    for lbl, raw in base[:: 4]:
+        body = raw.rstrip(b"\x00")
+        cases.append(("tail", body + r.choice([b"\x01", b"\x01\x02", b"\x00\x01", b"\xff", b"\x00\x00\x03", b"\x7f\x00", bytes([r.randrange(1, 128)]) * r.randrange(1, 5)])))
     # ---- raw entry point, every accepted prefix
     lines, inputs = [], []
     for lbl, raw in cases:
@@ -81,7 +85,7 @@ def run(res):
                 res.violation("unmodified RPU silently re-encoded to different bytes (raw): in=%s out=%s" % (inp.hex(), out.hex()),
                               {"op": "rt rpu rpu", "input": inp.hex(), "impl": o[:2000]})
         elif o.startswith("panic") or o in ("abort", "timeout"):
-            res.violation("parse/write crashed instead of returning an error: %s on %s" % (o, inp.hex()), {"op": "rt rpu rpu", "input": inp.hex(), "impl": o})
+            res.violation("parse/write crashed instead of returning an error: %s on %s" % (o, inp.hex()), {"op": "rt rpu rpu", "input": inp.hex(), "impl": o}, key=C.third_party_key(o))
     # ---- HEVC NAL entry point: canonical escaping, and a non-canonical variant
     nl, ninputs, canon = [], [], []
     for (lbl, raw), o in zip(cases, i):
